@@ -1032,7 +1032,7 @@ rrul_fill_yly(echs_instant_t *restrict tgt, size_t nti, rrulsp_t rr)
 		echs_shift_bday_p(rr->shift) && !echs_shift_neg_p(rr->shift);
 
 	/* fill up the array the hard way */
-	for (res = 0UL, tries = 64U; res < nti && --tries; y += rr->inter) {
+	for (res = 0UL, tries = 64U; res < nti && y < 2100U && --tries; y += rr->inter) {
 		bitint383_t cand[3U] = {0U};
 		int yd;
 
@@ -1225,7 +1225,7 @@ rrul_fill_mly(echs_instant_t *restrict tgt, size_t nti, rrulsp_t rr)
 	}
 
 	/* fill up the array the hard way */
-	for (res = 0UL, tries = 64U; res < nti && --tries;
+	for (res = 0UL, tries = 64U; res < nti && y < 2100U && --tries;
 	     ({
 		     do {
 			     if ((m += rr->inter) > 12) {
@@ -1394,7 +1394,8 @@ rrul_fill_wly(echs_instant_t *restrict tgt, size_t nti, rrulsp_t rr)
 	}
 
 	/* fill up the array the hard way */
-	for (res = 0UL, maxd = echs_scale_ndim(srcsca, y, m); res < nti;
+	for (res = 0UL, maxd = echs_scale_ndim(srcsca, y, m);
+	     res < nti && y < 2100U;
 	     ({
 		     d += rr->inter * 7U;
 		     while (d > maxd) {
@@ -1553,7 +1554,7 @@ rrul_fill_dly(echs_instant_t *restrict tgt, size_t nti, rrulsp_t rr)
 	/* fill up the array the hard way */
 	for (res = 0UL, w = echs_scale_wday(srcsca, y, m, d),
 		     maxd = echs_scale_ndim(srcsca, y, m);
-	     res < nti && tries++ < 64U * 366U;
+	     res < nti && y < 2100U && tries++ < 64U * 366U;
 	     ({
 		     d += rr->inter;
 		     w += rr->inter;
@@ -1717,7 +1718,7 @@ rrul_fill_Hly(echs_instant_t *restrict tgt, size_t nti, rrulsp_t rr)
 	/* fill up the array the naive way */
 	for (unsigned int w = ymd_get_wday(y, m, d), yd = ymd_get_yd(y, m, d),
 		     maxd = __get_ndom(y, m), maxy = (y % 4U) ? 365 : 366;
-	     res < nti && tries++ < 64U * 366U * 24U;
+	     res < nti && y < 2100U && tries++ < 64U * 366U * 24U;
 	     ({
 		     if ((H += rr->inter) >= 24U) {
 			     d += H / 24U, w += H / 24U, yd += H / 24U;
@@ -1913,7 +1914,7 @@ rrul_fill_Mly(echs_instant_t *restrict tgt, size_t nti, rrulsp_t rr)
 
 	/* fill up the array the naive way */
 	for (unsigned int w = ymd_get_wday(y, m, d), maxd = __get_ndom(y, m);
-	     res < nti && tries++ < 28U * 366U * 24U * 60U;
+	     res < nti && y < 2100U && tries++ < 28U * 366U * 24U * 60U;
 	     ({
 		     if ((M += rr->inter) >= 60U) {
 			     H += M / 60U, M %= 60U;
@@ -2110,7 +2111,7 @@ rrul_fill_Sly(echs_instant_t *restrict tgt, size_t nti, rrulsp_t rr)
 
 	/* fill up the array the naive way */
 	for (unsigned int w = ymd_get_wday(y, m, d), maxd = __get_ndom(y, m);
-	     res < nti && tries++ < 8U * 366U * 24U * 60U * 60U;
+	     res < nti && y < 2100U && tries++ < 8U * 366U * 24U * 60U * 60U;
 	     ({
 		     if ((S += rr->inter) >= 60U) {
 			     M += S / 60U, S %= 60U;
